@@ -67,12 +67,26 @@ func init() {
 	}
 	seqx.Register(&seqx.Spec{Name: "C11", Ops: names, New: func(args json.RawMessage) seqx.Inst {
 		document.VerifResetGlobals()
-		return &c11Inst{doc: document.New(), defs: map[string]c11Def{}}
+		var a c11Args
+		json.Unmarshal(args, &a)
+		return &c11Inst{doc: document.New(), defs: map[string]c11Def{}, narrow: a.Narrow}
 	}})
 	register("C11", "model_checking", runC11)
 }
 
+// c11Args: Narrow selects the second search: eight calls (one header kind with two texts, two footer
+// kinds, a page-number footer, picture, reopen) explored deeper than the full alphabet.
+type c11Args struct {
+	Narrow bool `json:"narrow"`
+}
+
+var c11NarrowOps = map[string]bool{
+	"AddHeader(default,A)": true, "AddHeader(default,B)": true, "AddFooter(default,A)": true, "AddFooter(first,B)": true,
+	"AddFooterWithPageNumber(default,C,true)": true, "AddHeader(even,A)": true, "AddImageFromData": true, "reopen": true,
+}
+
 type c11Inst struct {
+	narrow bool
 	doc    *document.Document
 	defs   map[string]c11Def // "header|default" -> latest definition
 	lastNT bool
@@ -86,6 +100,9 @@ type c11Inst struct {
 }
 
 func (i *c11Inst) Enabled(op int) bool {
+	if i.narrow && !c11NarrowOps[c11Ops[op].name] {
+		return false
+	}
 	switch c11Ops[op].kind {
 	case "reopen":
 		return i.reop < 1
@@ -328,35 +345,41 @@ func c11CheckPackage(pkg *pkgmodel.Pkg, defs map[string]c11Def, stage string) []
 			if r.hf+"|"+r.typ != k {
 				continue
 			}
-			var target *pkgmodel.Rel
+			var targets []*pkgmodel.Rel
 			for ri := range rels {
 				if rels[ri].ID == r.id {
-					target = &rels[ri]
+					targets = append(targets, &rels[ri])
 				}
 			}
-			if target == nil {
+			if len(targets) == 0 {
 				add("reference-unresolved", hf, fmt.Sprintf("%s r:id=%q has no relationship", k, r.id))
 				continue
 			}
-			wantType := pkgmodel.RtHeader
-			root := "hdr"
-			if hf == "footer" {
-				wantType = pkgmodel.RtFooter
-				root = "ftr"
+			if len(targets) > 1 {
+				// "resolvable" needs one answer: a consumer may pick any relationship carrying the id
+				add("reference-ambiguous", hf, fmt.Sprintf("%s r:id=%q is carried by %d relationships", k, r.id, len(targets)))
 			}
-			if target.Type != wantType {
-				add("reference-wrong-relationship-type", hf, fmt.Sprintf("%s resolves to a %s relationship", k, target.Type))
-				continue
+			for _, target := range targets {
+				wantType := pkgmodel.RtHeader
+				root := "hdr"
+				if hf == "footer" {
+					wantType = pkgmodel.RtFooter
+					root = "ftr"
+				}
+				if target.Type != wantType {
+					add("reference-wrong-relationship-type", hf, fmt.Sprintf("%s resolves to a %s relationship", k, target.Type))
+					continue
+				}
+				part := pkg.XML[target.Resolved]
+				if part == nil {
+					add("reference-target-missing", hf, fmt.Sprintf("%s -> %s not in the package or not XML", k, target.Resolved))
+					continue
+				}
+				if part.Local != root {
+					add("part-wrong-root", hf, fmt.Sprintf("%s root is %s", target.Resolved, part.Local))
+				}
+				out = append(out, c11CheckContent(part, def, k, stage)...)
 			}
-			part := pkg.XML[target.Resolved]
-			if part == nil {
-				add("reference-target-missing", hf, fmt.Sprintf("%s -> %s not in the package or not XML", k, target.Resolved))
-				continue
-			}
-			if part.Local != root {
-				add("part-wrong-root", hf, fmt.Sprintf("%s root is %s", target.Resolved, part.Local))
-			}
-			out = append(out, c11CheckContent(part, def, k, stage)...)
 		}
 	}
 	return out
@@ -443,4 +466,11 @@ func runC11(r *rep.Run) {
 	r.Bounds["alphabet"] = len(c11Ops)
 	r.Assume = []string{"texts are distinct single letters so that a stale definition is recognisable by its text"}
 	r.Merge(seqx.Search("C11", seqx.Opts{Depth: depth, Deadline: r.Deadline}))
+	narrow := 5
+	if r.Tier == "thorough" {
+		narrow = 6
+	}
+	r.Bounds["narrow_depth"] = narrow
+	r.Bounds["narrow_alphabet"] = "AddHeader(default,A|B), AddHeader(even,A), AddFooter(default,A), AddFooter(first,B), AddFooterWithPageNumber(default,C), AddImageFromData, reopen"
+	r.Merge(seqx.Search("C11", seqx.Opts{Depth: narrow, Deadline: r.Deadline, Args: c11Args{Narrow: true}}))
 }
